@@ -28,7 +28,8 @@ VARIABLE g
 
 ErrRes == {"Error", "NotUniqueError", "VersionError", "NotFoundError"}
 
-RecOf(tid) == Pool[Texts[tid].p]
+\* a custom record arrives with all its fields and their shapes: Doc!Resolve decides which are tags
+RecOf(tid) == Resolve(Pool[Texts[tid].p])
 LoggedBag(tids) == BagOf(SeqMap(LAMBDA t : NormC(RecOf(t)), tids))
 
 \* complete identity of an abstract line (catalogue self-check)
@@ -89,7 +90,7 @@ OutFails(o, canon, ref) ==
 
 Judge(i) ==
   LET G == Groups[i]
-      inp == SeqMap(LAMBDA p : Pool[p], G.inp) IN
+      inp == SeqMap(LAMBDA p : Resolve(Pool[p]), G.inp) IN
   IF ~CatOK(G, inp) THEN PrintT(<<"MACHINERY", G.id, "catalogue">>)
   ELSE IF ~IsValidDoc(inp, G.ver) THEN PrintT(<<"MACHINERY", G.id, "invalid-document">>)
   ELSE
